@@ -194,8 +194,9 @@ fn systematic(k: usize, n: usize, cfg: &EngineCfg, stats: &mut Stats) {
     stats.exhaustive_part = true;
 }
 
-const OUTSIDE: [&str; 5] = ["`", "~", " ", "é", "я"];
-const OUTSIDE_Z85: [&str; 8] = ["`", "~", " ", "é", "\"", ",", ";", "я"];
+// (the last entries are letters whose Unicode case mappings are ASCII letters: ı -> I, ſ -> S, K (kelvin) -> k, ß -> SS, ﬁ -> FI)
+const OUTSIDE: [&str; 11] = ["`", "~", " ", "é", "я", "\u{131}", "\u{17f}", "\u{212a}", "\u{df}", "\u{fb01}", "\u{130}"];
+const OUTSIDE_Z85: [&str; 12] = ["`", "~", " ", "é", "\"", ",", ";", "я", "\u{131}", "\u{17f}", "\u{212a}", "\u{fb01}"];
 
 pub fn case(ch: &mut Choices, ctx: &CaseCtx) -> CaseOut {
     let mut out = CaseOut::default();
